@@ -193,6 +193,10 @@ class SnapshotMonitor:
         else:
             self.seen[key] = st
 
+    def on_before_add_samples(self, s, shell):
+        if s.explored and not self.was_explored:      # first sampling-phase batch is about to be drawn
+            self.snap(s, 'before the first sampling-phase batch')
+
     def on_before_write(self, s, kind):
         if s.explored and not self.was_explored:      # the full write at the end of exploration
             self.snap(s, 'at the end-of-exploration checkpoint')
